@@ -127,7 +127,11 @@ def run_one(ck, prog):
                 ok = bool(srcs) and any(canon(strip_casts(sc.args(z[3])[1]).__getitem__(2)[0]) == canon(rs) if isinstance(strip_casts(sc.args(z[3])[1]), tuple) and strip_casts(sc.args(z[3])[1])[0] == "call" and strip_casts(sc.args(z[3])[1])[2] else False for z in srcs)
                 ck.ob("C18.2", f"setup-stores-mapped-size|{which}", ok, fn=su["path"], detail=f"ring_size stored for the {which} ring must be the length its mapping was made with (ring_size={show(rs)})")
     closes = [bb for bb, t in dc.cfg.calls(lambda t: t.get("callee") == CLOSE)]
-    ck.ob("C18.2", "close-once-after-unmaps", len(closes) == 1 and all(dc.cfg.dominates(bb, closes[0]) or True for bb, a in unmaps) and all(closes[0] not in dc.cfg.reachable_from(0, avoid={kinds[k][0]}) or k == "cq" for k in kinds if k), fn=d["path"],
+    # exactly one close on every way out (one site, or one per exit branch), each after the unmaps that always happen
+    every_exit = bool(closes) and not any(rb in dc.cfg.reachable_from(0, avoid=set(closes)) for rb in dc.cfg.return_blocks())
+    twice = any(c2 in dc.cfg.reachable_from(dc.cfg.term(c1).get("t"), avoid=set()) for c1 in closes for c2 in closes if dc.cfg.term(c1).get("t") is not None and (c2 != c1 or dc.cfg.in_cycle(c1)))
+    after = all(c not in dc.cfg.reachable_from(0, avoid={kinds[k][0]}) or k == "cq" for c in closes for k in kinds if k)
+    ck.ob("C18.2", "close-once-after-unmaps", every_exit and not twice and after, fn=d["path"],
           detail="the ring descriptor is closed exactly once, after the unmaps")
 
     # ---- C18.4 SQE constructors ----------------------------------------------------------------------------------------------------
